@@ -106,7 +106,10 @@ def check(prop, tier, seed, replay=None):
             pub = dict(line=line, fam=fam, meta=meta, config=cfg)
             if xi == 'no-inst' and xm == 'no-inst': continue
             if xi == 'no-op' and 'k=span_' in line and '17' in cfg.split('-')[0]: continue     # std::span construction paths exist from C++20 on (README)
-            if xi != xm:
+            cmp_i, cmp_m = xi, xm
+            if '17' in cfg.split('-')[0]:      # explicitness exists from C++20 on (README): before, is_convertible == is_constructible
+                cmp_i, cmp_m = xi.split(' impl=')[0], xm.split(' impl=')[0]
+            if cmp_i != cmp_m:
                 rep.broke(dict(correspondence='ext family, exact transcript', impl=xi, model=xm, **pub))
             # property statement on the implementation
             if fam == 'ctor' and meta and meta['adm']:
